@@ -1043,6 +1043,12 @@ def gen_C11(tier, seed):
             if comps:
                 sg = rp.choice(["", "-"])
                 out.append(pdv(sg + " ".join(comps), (-1 if sg else 1) * tot, 0))
+    # Epoch::hours() .. nanoseconds() expose the decomposition
+    for d in g.parts_pool()[::4]:
+        for t in (0, 4, 5):
+            out.append(f"accessors {p2(d)} {t}")
+    for _ in range(budget(tier, 1500, 100000)):
+        out.append(f"accessors {p3(g.rand_epoch())}")
     return out
 
 
